@@ -107,6 +107,16 @@ func (q *UnitType) Modality() Modality {
 	return q.Mode
 }
 
+// Prints the left operand of a binary type (A * B or A -* B). The binary connectives and the
+// shifts associate to the right, so an operand of these forms needs brackets on the left.
+func stringLeftOperand(t SessionType) string {
+	switch t.(type) {
+	case *SendType, *ReceiveType, *UpType, *DownType:
+		return "(" + t.String() + ")"
+	}
+	return t.String()
+}
+
 // Send: A * B
 type SendType struct {
 	Left  SessionType
@@ -125,7 +135,7 @@ func NewSendType(left, right SessionType, mode Modality) *SendType {
 func (q *SendType) String() string {
 	var buffer bytes.Buffer
 	// buffer.WriteString("(")
-	buffer.WriteString(q.Left.String())
+	buffer.WriteString(stringLeftOperand(q.Left))
 	buffer.WriteString(" * ")
 	buffer.WriteString(q.Right.String())
 	// buffer.WriteString(")")
@@ -144,7 +154,7 @@ func (q *SendType) StringWithModality() string {
 
 func (q *SendType) StringWithOuterModality() string {
 	var buffer bytes.Buffer
-	buffer.WriteString(q.Left.String())
+	buffer.WriteString(stringLeftOperand(q.Left))
 	buffer.WriteString(" * ")
 	buffer.WriteString(q.Right.String())
 	buffer.WriteString(" [")
@@ -175,7 +185,7 @@ func NewReceiveType(left, right SessionType, mode Modality) *ReceiveType {
 func (q *ReceiveType) String() string {
 	var buffer bytes.Buffer
 	// buffer.WriteString("(")
-	buffer.WriteString(q.Left.String())
+	buffer.WriteString(stringLeftOperand(q.Left))
 	buffer.WriteString(" -* ")
 	buffer.WriteString(q.Right.String())
 	// buffer.WriteString(")")
@@ -196,7 +206,7 @@ func (q *ReceiveType) StringWithModality() string {
 
 func (q *ReceiveType) StringWithOuterModality() string {
 	var buffer bytes.Buffer
-	buffer.WriteString(q.Left.String())
+	buffer.WriteString(stringLeftOperand(q.Left))
 	buffer.WriteString(" -* ")
 	buffer.WriteString(q.Right.String())
 	buffer.WriteString(" [")
